@@ -44,11 +44,12 @@ def rand_cond(rng, macros):
     return rng.choice(["1", "0"])
 
 
-def rand_source(rng, nlines=None, with_includes=False, allow_errors=0.05, cond_depth=3):
-    """returns (text, defines, files)"""
+def rand_source(rng, nlines=None, with_includes=False, allow_errors=0.05, cond_depth=3, _files=None, _level=0):
+    """returns (text, defines, files); included files may include further files (two levels) and may
+    contain errors, so that error locations inside nested includes are exercised"""
     macros = []      # (name, params|None)
     defines = []
-    files = []
+    files = _files if _files is not None else []
     for i in range(rng.randint(0, 2)):
         n = "D%d" % i
         v = rng.choice(["1", "0", "7", "xy", ""])
@@ -109,10 +110,13 @@ def rand_source(rng, nlines=None, with_includes=False, allow_errors=0.05, cond_d
             k = rng.randint(1, max(1, len(a) - 1))
             lines.append(a[:k] + "\\")
             lines.append(a[k:])
-        elif x < 0.58 and with_includes:
+        elif x < (0.58 if _level == 0 else 0.62) and with_includes:
             fn = "inc%d.%s" % (len(files), rng.choice(["h", "h", "inc"]))
-            content, _, _ = rand_source(rng, nlines=rng.randint(1, 5), with_includes=False, allow_errors=0)
-            files.append((fn, content))
+            files.append((fn, None))                      # reserve the name
+            slot = len(files) - 1
+            content, _, _ = rand_source(rng, nlines=rng.randint(1, 5), with_includes=(_level < 2 and not fn.endswith(".inc")),
+                                        allow_errors=allow_errors * 0.5 if rng.random() < 0.3 else 0, _files=files, _level=_level + 1)
+            files[slot] = (fn, content)
             lines.append('#include "%s"' % fn)
         elif x < 0.58 + allow_errors:
             lines.append(rng.choice(["#error stop here", "#bogus", "#endif", "x = \"unterminated;", "#if", "#if foo", "#else junk", "#define"]))
